@@ -1020,6 +1020,14 @@ impl PeerConnection {
         self.inner.ice_transport.clone()
     }
 
+    /// Verification hook: the connection's current DTLS transport, so a test
+    /// peer can hand application data (e.g. a hand-built SCTP ABORT) to the
+    /// real record layer and watch the DTLS state of the endpoint under test.
+    #[cfg(rustrtc_verif)]
+    pub fn verif_dtls_transport(&self) -> Option<Arc<DtlsTransport>> {
+        self.inner.dtls_transport.lock().clone()
+    }
+
     fn rtp_transport_for_transceiver_or(
         &self,
         transceiver: &Arc<RtpTransceiver>,
